@@ -27,14 +27,39 @@ package s2
 //@   ensures [orientation] result1 ==> forall k int :: 0 <= k && k < 4 ==> result0[k].orientation == c.orientation^int8(posToOrientation[k])
 //@   loop 1: unroll 4
 
-// the orientation Children assigns is the one the Hilbert tables give the child id
-//@ lemma childOrientation(ci CellID, k int)
+// the orientation Children assigns is the one the Hilbert tables give the child id (one lemma per child position:
+// with a constant position each query is several times smaller than with a symbolic one)
+//@ lemma childOrientation0(ci CellID)
 //@   thorough
-//@   timeout 600
+//@   timeout 900
 //@   inlinecalls
 //@   unrollcalls 8
-//@   requires vcValid(ci) && !ci.IsLeaf() && 0 <= k && k < 4
-//@   ensures [orientation] vcOrientOf(ci.Children()[k].faceIJOrientation()) == vcOrientOf(ci.faceIJOrientation())^posToOrientation[k]
+//@   requires vcValid(ci) && !ci.IsLeaf()
+//@   ensures [orientation] vcOrientOf(ci.Children()[0].faceIJOrientation()) == vcOrientOf(ci.faceIJOrientation())^posToOrientation[0]
+
+//@ lemma childOrientation1(ci CellID)
+//@   thorough
+//@   timeout 900
+//@   inlinecalls
+//@   unrollcalls 8
+//@   requires vcValid(ci) && !ci.IsLeaf()
+//@   ensures [orientation] vcOrientOf(ci.Children()[1].faceIJOrientation()) == vcOrientOf(ci.faceIJOrientation())^posToOrientation[1]
+
+//@ lemma childOrientation2(ci CellID)
+//@   thorough
+//@   timeout 900
+//@   inlinecalls
+//@   unrollcalls 8
+//@   requires vcValid(ci) && !ci.IsLeaf()
+//@   ensures [orientation] vcOrientOf(ci.Children()[2].faceIJOrientation()) == vcOrientOf(ci.faceIJOrientation())^posToOrientation[2]
+
+//@ lemma childOrientation3(ci CellID)
+//@   thorough
+//@   timeout 900
+//@   inlinecalls
+//@   unrollcalls 8
+//@   requires vcValid(ci) && !ci.IsLeaf()
+//@   ensures [orientation] vcOrientOf(ci.Children()[3].faceIJOrientation()) == vcOrientOf(ci.faceIJOrientation())^posToOrientation[3]
 
 // ---------------------------------------------------------------- the six face cells' lat-lng bounds (constants)
 
